@@ -1330,6 +1330,115 @@ func nestedProbe(t *testing.T, run *collector, name string, rng *rand.Rand) {
 	ro.Discard()
 }
 
+// prefixKeyInTxnLayer: the committed keys are prefix-free (as everywhere else in this check), but the UNCOMMITTED layer
+// (a nested transaction, then the store's own pending layer after Flush) writes the iteration prefix itself as a key next
+// to other keys under it. Forward and reverse iteration over that prefix must show own writes, hide own deletes and be
+// complete. (Unlike nested keys in committed data, this shape is handled correctly by the unchanged code: it is judged.)
+func prefixKeyInTxnLayer(t *testing.T, run *collector, name string, rng *rand.Rand) {
+	sI, err := store.NewStoreInMemory(newClog(), func() lib.Config {
+		c := lib.DefaultConfig()
+		c.StoreConfig.LSSCompactionInterval = 0
+		return c
+	}())
+	if err != nil {
+		t.Fatalf("NewStoreInMemory: %v", err)
+	}
+	st := sI.(*store.Store)
+	defer st.Close()
+	a := segPool[rng.Intn(len(segPool)-1)]
+	if len(a) == 0 {
+		a = []byte("p")
+	}
+	pre := lib.JoinLenPrefix(a)
+	var kids [][]byte
+	for i := 0; i < 3+rng.Intn(4); i++ {
+		kids = append(kids, lib.JoinLenPrefix(a, []byte{byte(1 + i*7)}))
+	}
+	m := newVersionedMap()
+	ov := map[string]ent{}
+	for i, k := range kids[:len(kids)-1] {
+		val := []byte(fmt.Sprintf("c%d", i))
+		_ = st.Set(bytes.Clone(k), val)
+		ov[string(k)] = ent{val: val}
+	}
+	if _, err := st.Commit(); err != nil {
+		t.Fatalf("commit: %v", err)
+	}
+	m.commit(1, ov)
+	// the uncommitted layer
+	pending := map[string]ent{}
+	tx := st.NewTxn()
+	set := func(k, v []byte) { _ = tx.Set(bytes.Clone(k), v); pending[string(k)] = ent{val: v} }
+	del := func(k []byte) { _ = tx.Delete(bytes.Clone(k)); pending[string(k)] = ent{dead: true} }
+	switch rng.Intn(3) {
+	case 0:
+		set(pre, []byte("root"))
+	case 1:
+		del(pre)
+	default:
+		set(pre, []byte("root"))
+		del(pre)
+		set(pre, []byte("root2"))
+	}
+	set(kids[len(kids)-1], []byte("new"))
+	set(kids[0], []byte("overwritten"))
+	if len(kids) > 2 {
+		del(kids[1])
+	}
+	want := func(rev bool) []kv {
+		cur := map[string][]byte{}
+		for k, e := range ov {
+			cur[k] = e.val
+		}
+		for k, e := range pending {
+			if e.dead {
+				delete(cur, k)
+			} else {
+				cur[k] = e.val
+			}
+		}
+		var out []kv
+		for k, v := range cur {
+			if bytes.HasPrefix([]byte(k), pre) {
+				out = append(out, kv{K: []byte(k), V: v})
+			}
+		}
+		sort.Slice(out, func(i, j int) bool {
+			if rev {
+				return bytes.Compare(out[i].K, out[j].K) > 0
+			}
+			return bytes.Compare(out[i].K, out[j].K) < 0
+		})
+		return out
+	}
+	check := func(view string, r lib.RStoreI) {
+		for _, rev := range []bool{false, true} {
+			var it lib.IteratorI
+			if rev {
+				it, _ = r.RevIterator(bytes.Clone(pre))
+			} else {
+				it, _ = r.Iterator(bytes.Clone(pre))
+			}
+			got, _ := drain(it, 0, 100)
+			w := want(rev)
+			run.Count("prefix_key_in_txn_layer_scans", 1)
+			if !sameKVs(got, w) {
+				run.Violation(fmt.Sprintf("txn-layer-scan view=%s rev=%v kind=%s", view, rev, scanKind(got, w, rev)), "^"+name+"$",
+					map[string]any{"prefix": core.Hex(pre), "want": hexKVs(w), "got": hexKVs(got)})
+				return
+			}
+		}
+	}
+	check("nested-txn", tx)
+	if err := tx.Flush(); err != nil {
+		t.Fatalf("flush: %v", err)
+	}
+	check("store-pending-layer", st)
+	tx2 := st.NewTxn()
+	check("second-nested-txn", tx2)
+	tx2.Discard()
+}
+
 func TestCheck(t *testing.T) {
 	run := core.Start(t, "C10", "exploration",
 		"seeded operation sequences (set/delete/get/iterate/reverse-iterate/nested txn flush|discard|abandon/copy/commit/reset/"+
